@@ -118,12 +118,17 @@ def pick_cfgs(rng, req, k, jac=False, must_backprop=False):
     out, seen_dev = [], set()
 
     def take(c):
+        keys = []
         if c[1] == "jax":
-            mixed = c[0] == "default.mixed"
-            if SLOW[key] <= 0 or (mixed and SLOW["mixedjax"] <= 0) or (not only_jax and rng.random() < 0.4):
-                return False
-            SLOW[key] -= 1
-            SLOW["mixedjax"] -= mixed
+            keys.append(key)
+            keys += ["mixedjax"] if c[0] == "default.mixed" else []
+            keys += ["jax_backprop"] if (jac and c[2] == "backprop") else []
+        if jac and c[0] == "default.mixed":
+            keys.append("mixed_jac")
+        if any(SLOW[x] <= 0 for x in keys) or (c[1] == "jax" and not only_jax and rng.random() < 0.4):
+            return False
+        for x in keys:
+            SLOW[x] -= 1
         out.append(c)
         return True
 
@@ -271,10 +276,11 @@ CORPUS_REQS = [
 def gen_cases(ctx):
     rng = ctx.rng
     q = ctx.tier == "quick"
-    SLOW.update({"jax_res": 10, "jax_jac": 14, "mixedjax": 2} if q else {"jax_res": 10 ** 6, "jax_jac": 10 ** 6, "mixedjax": 24})
-    n_res, k_res = (30, 4) if q else (220, 7)
-    n_jac, k_jac = (12, 4) if q else (90, 7)
-    n_tj = 8 if q else 50
+    SLOW.update({"jax_res": 10, "jax_jac": 12, "mixedjax": 2, "jax_backprop": 2, "mixed_jac": 6} if q else
+                {"jax_res": 10 ** 6, "jax_jac": 10 ** 6, "mixedjax": 24, "jax_backprop": 24, "mixed_jac": 10 ** 6})
+    n_res, k_res = (32, 4) if q else (220, 7)
+    n_jac, k_jac = (13, 4) if q else (90, 7)
+    n_tj = 16 if q else 80
     n_batch = 6 if q else 40
     cases = []
     reqs = list(CORPUS_REQS)
@@ -319,7 +325,7 @@ def gen_cases(ctx):
         r = gen_req(rng, kinds=jk, batch=False)
         P = rng.choice([1, 2, 3])
         part = r["shots"] is not None and len(expand_shots(r["shots"])) > 1
-        for d in rng.sample(DEVS, 2):
+        for d in rng.sample(DEVS, 3):
             for m in ("parameter-shift", "finite-diff", "adjoint"):
                 if valid_cfg(d, "jax", m, r, jac=True):
                     cases.append(mk("tapejac", (d, "numpy", m), req=r, P=P))
